@@ -59,6 +59,7 @@ type DocSpec struct {
 
 	TextOps  int  `json:"text_ops"`  // 0 Tj only, 1 TJ arrays, 2 mixed incl. Tm / T* positioning
 	FormXObj bool `json:"form_xobj"` // some lines live in a Form XObject
+	Running  int  `json:"running,omitempty"` // this many header pieces and footer pieces repeated on every page
 	Bulk     int  `json:"bulk,omitempty"` // this many unreferenced objects: cross-reference data longer than a read buffer
 	Superscripts bool `json:"superscripts,omitempty"` // short raised pieces of text: baselines closer together than half a glyph height
 	FormNest int  `json:"form_nest,omitempty"` // that form invokes this many forms of its own, one line each
@@ -688,6 +689,9 @@ func (d *docState) lineText(f *FontSpec, serial int, r *sim.Rand) string {
 		return b.String()
 	}
 	n := 1 + r.Intn(6)
+	if r.Pct(20) {
+		n += 6 // a long line: strings of 60-100 bytes
+	}
 	for i := 0; i < n; i++ {
 		if i > 0 {
 			b.WriteByte(' ')
@@ -705,7 +709,7 @@ func (d *docState) lineText(f *FontSpec, serial int, r *sim.Rand) string {
 	return b.String()
 }
 
-func (d *docState) makeLines(pageIdx int, r *sim.Rand) []Line {
+func (d *docState) makeLines(pageIdx int, r *sim.Rand) (out []Line) {
 	sp := d.spec
 	maxLines := sp.Lines
 	if maxLines < 1 {
@@ -718,6 +722,19 @@ func (d *docState) makeLines(pageIdx int, r *sim.Rand) []Line {
 	if sp.BlankPages && pageIdx%100 != 1 && r.Pct(35) {
 		return nil // a page that shows no text (never the second page, so some text remains)
 	}
+	if sp.Running > 0 && d.fonts[0].HasSpace() {
+		// running heads: the same short pieces at the same places on every page
+		for j := 0; j < sp.Running; j++ {
+			lines = append(lines, Line{Font: 0, Text: "Head " + words[(j*7+int(sp.Seed%11))%len(words)], X: 60 + float64(j)*105, Y: 770, Size: 9})
+		}
+	}
+	defer func() {
+		if sp.Running > 0 && d.fonts[0].HasSpace() && out != nil {
+			for j := 0; j < sp.Running; j++ {
+				out = append(out, Line{Font: 0, Text: "Foot " + words[(j*5+int(sp.Seed%13))%len(words)], X: 60 + float64(j)*105, Y: 28, Size: 9})
+			}
+		}
+	}()
 	for i := 0; i < n; i++ {
 		fi := r.Intn(len(d.fonts))
 		serial := pageIdx*100 + i + 1 + 1000*d.w.revs
@@ -744,7 +761,8 @@ func (d *docState) makeLines(pageIdx int, r *sim.Rand) []Line {
 		}
 		y -= ln.Size * 1.5
 	}
-	return lines
+	out = lines
+	return out
 }
 
 // contentFor renders lines as a content stream program.
